@@ -304,6 +304,31 @@ fn io_faults(_: &Ctx) -> Vec<RCase> {
     let mut c = RCase::explicit("zipatch", "io:unwritable-target", vec![head(vec![addfile.clone()]), pack_files(&[("boot/readme.txt/".to_string(), vec![])]), vec![0]]).expect_err();
     c.note = "io:unwritable-target: AddFile boot/readme.txt where that path is an existing directory".into();
     v.push(c);
+    // write faults after a successful open: the target is a link to /dev/full (ENOSPC on every write), or the write
+    // crosses the file-size limit (EFBIG)
+    if std::path::Path::new("/dev/full").exists() {
+        let small = zp::file_op(b'A', 128, 13, 0, "boot/full.bin", &[blk.clone()]);
+        let mut c = RCase::explicit("zipatch", "io:write-fault", vec![head(vec![small]), pack_files(&[("boot/full.bin@".to_string(), b"/dev/full".to_vec())]), vec![0]]).expect_err();
+        c.note = "io:write-fault: AddFile (13 bytes at offset 128) onto a link to /dev/full".into();
+        v.push(c);
+        let big_payload = crate::build::mdl::random_bytes(5, 9000);
+        let big = zp::file_op(b'A', 128, 9000, 0, "boot/full.bin", &[zp::file_block(&big_payload, crate::build::deflate::Mode::Raw)]);
+        let mut c = RCase::explicit("zipatch", "io:write-fault", vec![head(vec![big]), pack_files(&[("boot/full.bin@".to_string(), b"/dev/full".to_vec())]), vec![0]]).expect_err();
+        c.note = "io:write-fault: AddFile (9000 bytes at offset 128) onto a link to /dev/full".into();
+        v.push(c);
+        for (name, cmd) in &cmds {
+            let tree = pack_files(&[("sqpack/ffxiv/020000.win32.dat0@".to_string(), b"/dev/full".to_vec()), ("sqpack/ffxiv/020000.win32.index@".to_string(), b"/dev/full".to_vec())]);
+            let mut c = RCase::explicit("zipatch", "io:write-fault", vec![head(vec![cmd.clone()]), tree, vec![0]]).expect_err();
+            c.note = format!("io:write-fault: {} onto a link to /dev/full", name);
+            v.push(c);
+        }
+    }
+    {
+        let far = zp::file_op(b'A', crate::engine::worker::FSIZE_LIMIT, 13, 0, "boot/far.bin", &[blk.clone()]);
+        let mut c = RCase::explicit("zipatch", "io:write-fault", vec![head(vec![far]), vec![], vec![0]]).expect_err();
+        c.note = "io:write-fault: AddFile whose write crosses the file-size limit (EFBIG)".into();
+        v.push(c);
+    }
     // commands before target info
     for (name, cmd) in &cmds {
         let mut b = zp::file_header();
